@@ -27,6 +27,16 @@ func c33(x *Ctx) {
 				return
 			}
 			fr, _, ok := eng.FieldRefOf(eng.Receiver(cl))
+			if !ok {
+				// a helper that is handed the map: func(vals *sync.Map, …) called with &m.counters
+				if p, isP := eng.Receiver(cl).(*ssa.Parameter); isP {
+					for _, a := range x.callerArgs(f, p) {
+						if fr2, _, ok2 := eng.FieldRefOf(a); ok2 && cells(fr2) {
+							fr, ok = fr2, true
+						}
+					}
+				}
+			}
 			if !ok || !cells(fr) {
 				return
 			}
@@ -40,7 +50,149 @@ func c33(x *Ctx) {
 	if n == 0 {
 		c.Unresolved(r1, "MultiMetrics/cells", "no writes to the cell maps found")
 	}
-	c.Min(r1, 6)
+	c.Min(r1, 4)
+
+	// ---- clause 1b: a recorded value is applied to the cell that is actually in the map ---------------------------
+	// (LoadOrStore returns the cell that won; writing the value into the candidate cell before offering it – and not
+	// looking at what LoadOrStore returned – loses the value whenever another goroutine's cell, or the one Register
+	// put there, wins)
+	const r1b = "C33.value-on-stored-cell"
+	isAtomicWrite := func(in ssa.Instruction) (ssa.CallInstruction, bool) {
+		cl, ok := in.(ssa.CallInstruction)
+		if !ok {
+			return nil, false
+		}
+		n := eng.CalleeName(cl)
+		if !strings.HasPrefix(n, "(*sync/atomic.") {
+			return nil, false
+		}
+		m := eng.MethodBase(n)
+		return cl, m == "Add" || m == "Store" || m == "Swap" || m == "CompareAndSwap"
+	}
+	nW := 0
+	for _, f := range x.PkgFuncs("metrics") {
+		if !strings.Contains(FName(f), "MultiMetrics") && f.Signature.Recv() != nil {
+			continue
+		}
+		eng.Instrs(f, func(in ssa.Instruction) {
+			cl, ok := isAtomicWrite(in)
+			if !ok {
+				return
+			}
+			args := eng.CallArgs(cl)
+			if len(args) == 0 {
+				return
+			}
+			// the value written depends on what the caller recorded
+			if _, fromParam := eng.Derives(args[len(args)-1], func(v ssa.Value) bool { _, isP := v.(*ssa.Parameter); return isP }, eng.FlowOpts{}); !fromParam {
+				if k, isK := eng.ConstInt(args[len(args)-1]); !(isK && k != 0) {
+					return // initialisation with zero
+				}
+			}
+			rv := eng.Receiver(cl)
+			fresh, _ := rv.(*ssa.Alloc)
+			if fresh == nil {
+				nW++
+				return
+			}
+			// a locally made cell: is it only a LoadOrStore candidate?
+			candidate := false
+			for _, ref := range *fresh.Referrers() {
+				if c2, ok := ref.(ssa.CallInstruction); ok && eng.MethodBase(eng.CalleeName(c2)) == "LoadOrStore" {
+					candidate = true
+				}
+				if mi, ok := ref.(*ssa.MakeInterface); ok {
+					for _, r2 := range *mi.Referrers() {
+						if c2, ok := r2.(ssa.CallInstruction); ok && eng.MethodBase(eng.CalleeName(c2)) == "LoadOrStore" {
+							candidate = true
+						}
+					}
+				}
+			}
+			if !candidate {
+				return
+			}
+			nW++
+			c.Examined++
+			c.Violate(r1b, BaseName(f)+"/"+eng.MethodBase(eng.CalleeName(cl)), x.Pos(in), "the recorded value is written into a freshly made cell that is then only offered to LoadOrStore: when the map already holds a cell for the name (another goroutine's first use, or Register) the fresh cell is discarded and the value with it")
+		})
+	}
+	if nW == 0 {
+		c.Unresolved(r1b, "MultiMetrics/writes", "no value writes to metric cells found")
+	} else {
+		c.Hold(r1b, "MultiMetrics/recording-methods", "metrics/multi_metrics.go", sprintf("%d value writes, all on cells taken from the map", nW))
+	}
+
+	// ---- clause 1c: up/down values are kept signed ------------------------------------------------------------------
+	const r1c = "C33.updown-signed"
+	updF := eng.FieldIs("metrics", "MultiMetrics", "updowns")
+	{
+		bad := ""
+		nT := 0
+		var visit func(f *ssa.Function, isUpd func(ssa.Value) bool, depth int)
+		visit = func(f *ssa.Function, isUpd func(ssa.Value) bool, depth int) {
+			eng.Instrs(f, func(in ssa.Instruction) {
+				cl, ok := in.(ssa.CallInstruction)
+				if !ok {
+					return
+				}
+				n := eng.CalleeName(cl)
+				if strings.HasPrefix(n, "(*sync.Map).") && isUpd(eng.Receiver(cl)) {
+					m := eng.MethodBase(n)
+					// candidate cells offered to the map
+					if m == "LoadOrStore" || m == "Store" {
+						a := eng.CallArgs(cl)
+						if mi, ok := a[len(a)-1].(*ssa.MakeInterface); ok {
+							nT++
+							if t := typeString(mi.X.Type()); t != "*sync/atomic.Int64" {
+								bad = t + " stored at " + x.Pos(in)
+							}
+						}
+					}
+					// type assertions on what comes out
+					if v, ok := cl.(ssa.Value); ok && v.Referrers() != nil {
+						for _, ref := range *v.Referrers() {
+							e, ok := ref.(*ssa.Extract)
+							if !ok || e.Index != 0 || e.Referrers() == nil {
+								continue
+							}
+							for _, r2 := range *e.Referrers() {
+								if ta, ok := r2.(*ssa.TypeAssert); ok {
+									nT++
+									if t := typeString(ta.AssertedType); t != "*sync/atomic.Int64" {
+										bad = "read as " + t + " at " + x.Pos(ta)
+									}
+								}
+							}
+						}
+					}
+					return
+				}
+				// handed to a helper
+				if g := cl.Common().StaticCallee(); g != nil && g.Blocks != nil && x.P.FuncRel(g) == "metrics" && depth < 2 {
+					for i, a := range cl.Common().Args {
+						if isUpd(a) && i < len(g.Params) {
+							p := g.Params[i]
+							visit(g, func(v ssa.Value) bool { return v == ssa.Value(p) }, depth+1)
+						}
+					}
+				}
+			})
+		}
+		for _, f := range x.PkgFuncs("metrics") {
+			visit(f, func(v ssa.Value) bool {
+				fr, _, ok := eng.FieldRefOf(v)
+				return ok && updF(fr)
+			}, 0)
+		}
+		c.Examined += nT
+		if nT == 0 {
+			c.Unresolved(r1c, "MultiMetrics.updowns", "no cell types found for the up/down map")
+		} else {
+			c.Decide(bad == "", r1c, "MultiMetrics.updowns", "metrics/multi_metrics.go", sprintf("%d cell uses, all *atomic.Int64", nT),
+				"an up/down metric cell is "+bad+": up/down values go below zero in normal operation (a batch's Down can precede the enqueue's Up), and an unsigned cell reads back as about 1.8e19 instead of −1")
+		}
+	}
 
 	// ---- clause 2: kind agreement ---------------------------------------------------------------------
 	const r2 = "C33.kind-agreement"
